@@ -360,10 +360,33 @@ func parseIptables(line string, ver int, sets map[string]int, in *interner) (str
 					t.next()
 				}
 				a.matches = append(a.matches, "MOther 0")
+			case "tcp":
+				// only the SYN test the connection-limit rule uses
+				for _, x := range []string{"--tcp-flags", "FIN,SYN,RST,ACK", "SYN"} {
+					if err := t.expect(x); err != nil {
+						return "", err
+					}
+				}
+				if a.l4proto != 6 {
+					return "", fmt.Errorf("-m tcp without -p tcp in the same rule")
+				}
+				a.matches = append(a.matches, "MOther 2")
+			case "connlimit":
+				if err := t.expect("--connlimit-above"); err != nil {
+					return "", err
+				}
+				t.next()
+				if err := t.expect("--connlimit-mask"); err != nil {
+					return "", err
+				}
+				if err := t.expect("0"); err != nil {
+					return "", err
+				}
+				a.matches = append(a.matches, "MOther 3")
 			default:
 				return "", fmt.Errorf("unknown match module %q", m)
 			}
-		case "--jump":
+		case "--jump", "-j":
 			if neg {
 				return "", fmt.Errorf("negation before --jump")
 			}
@@ -639,7 +662,35 @@ func parseNft(line string, ver int, sets map[string]int, in *interner) (string, 
 			a.matches = append(a.matches, "MOther 0")
 		case "counter":
 			// the statement part
-			switch s := t.next(); s {
+			s := t.next()
+			// QoS statements carry their own condition in front of the verdict
+			if s == "limit" {
+				for _, x := range []string{"rate", "over"} {
+					if err := t.expect(x); err != nil {
+						return "", err
+					}
+				}
+				t.next()
+				if err := t.expect("burst"); err != nil {
+					return "", err
+				}
+				t.next()
+				if err := t.expect("packets"); err != nil {
+					return "", err
+				}
+				a.matches = append(a.matches, "MOther 1")
+				s = t.next()
+			} else if s == "ct" {
+				for _, x := range []string{"count", "over"} {
+					if err := t.expect(x); err != nil {
+						return "", err
+					}
+				}
+				t.next()
+				a.matches = append(a.matches, "MOther 3")
+				s = t.next()
+			}
+			switch s {
 			case "return":
 				a.action = "AReturn"
 			case "drop":
